@@ -491,7 +491,7 @@ pub fn c08_accumulating_send<S: Src>(s: &mut S) {
 /// accepted updates for the same address leave exactly the newer one queued;
 /// for different addresses both stay. Addresses are concrete (a symbolic
 /// invalidation makes the real heap intractable), everything else symbolic.
-fn key_by_addr<S: Src>(s: &mut S, same: bool) {
+fn key_by_addr<S: Src>(s: &mut S, same: bool, fresh: bool) {
     use crate::member::{ApplySummary, ConflictResult};
     let mut sh = Shape::k(0);
     sh.probe = false;
@@ -511,7 +511,7 @@ fn key_by_addr<S: Src>(s: &mut S, same: bool) {
     vassert!(r1.is_ok() && f.updates_backlog() == 1, "c15: an accepted update enters the backlog");
     // the second update may also be reported as "registered a new active member"
     // (a forgotten member coming back while an update about it is still pending)
-    let fresh = s.bool();
+    // (concrete per instance: real heap operations must not sit under a symbolic guard)
     let ok = ApplySummary {
         is_active_now: true,
         apply_successful: true,
@@ -541,14 +541,16 @@ fn key_by_addr<S: Src>(s: &mut S, same: bool) {
     let r3 = f.handle_apply_summary(ok2, ua, false, &mut rt);
     vassert!(r3.is_ok() && f.updates_backlog() == before, "c15: applying updates with broadcasting disabled leaves the backlog untouched");
     vcover!(a.gen != b.gen, "different generations");
-    vcover!(fresh, "returning member");
 }
 
 pub fn c15_key_same_addr<S: Src>(s: &mut S) {
-    key_by_addr(s, true)
+    key_by_addr(s, true, false)
+}
+pub fn c15_key_returning<S: Src>(s: &mut S) {
+    key_by_addr(s, true, true)
 }
 pub fn c15_key_diff_addr<S: Src>(s: &mut S) {
-    key_by_addr(s, false)
+    key_by_addr(s, false, false)
 }
 
 /// `broadcast()` on the *real* backlog (no stubs): one pending item on its last
